@@ -557,6 +557,8 @@ pub struct BindRequest<'data> {
     payload: BindPayload<'data>,
     /// Place to respond to the bind request
     tx_msg_tx: mpsc::UnboundedSender<Message>,
+    /// Whether a reply has already been sent
+    replied: AtomicBool,
 }
 
 impl BindRequest<'_> {
@@ -590,6 +592,10 @@ impl BindRequest<'_> {
     /// - Returns [`Error::Closed`] if the `Multiplexor` is already closed.
     #[tracing::instrument(skip(self), level = "debug")]
     pub fn reply(&self, accepted: bool) -> Result<()> {
+        if self.replied.swap(true, Ordering::AcqRel) {
+            // Each request gets exactly one reply frame
+            return Ok(());
+        }
         if accepted {
             self.tx_msg_tx.send(Frame::new_finish(self.flow_id).into())
         } else {
